@@ -110,3 +110,8 @@ Proof. intros W Hn vs s v Hs Hk. destruct (virtual_has_live_internal_parent h vs
 Theorem virtual_table_sound h p v vs : WF h -> pget h.(h_vtable) (p, v) = Some vs ->
   exists s, get_sess h vs = Some s /\ s.(s_kind) = KVirtual p v.
 Proof. intros W. apply (wf_vt _ _ h W). Qed.
+
+(* C07: the sessions counted against a backend's limit are live sessions and never more than the limit *)
+Theorem limit_never_exceeded h b l : WF h -> aget h.(h_counted) b = Some l ->
+  N.of_nat (length l) <= limit_of h b /\ forall sid, In sid l -> live h sid.
+Proof. intros W Hb. split; [apply (wf_limit _ _ h W b l Hb)|]. intros sid. apply (wf_counted _ _ h W b l sid Hb). Qed.
